@@ -6,7 +6,8 @@ thorough, zero portions, `remaining`) x amounts and checks the theorems on Numsc
 parts sum to the amount, each part is the exact floor or the floor + 1, the extra units form a
 prefix (earliest parts), plus the scaling lemma Allocate(ps, m*D + r) = m*nums + Allocate(ps, r).
 Code: the real machine.NewAllotment / Allotment.Allocate is called on every enumerated case and
-on the case scaled by 2^53+1, 2^64+1 and 10^30 (via the lemma); allotment sources and
+on the case scaled by 2^53+1, 2^64+1, 10^30 and into the window just below 10^18, 2^62+1,
+2^63-25, 2^64-1 (via the lemma); the script cases are scaled the same way; allotment sources and
 destinations are also run through scripts (family A) and the compiler's static rule "portions
 must provably sum to 100 %" through the reject family X.
 """
@@ -38,7 +39,10 @@ def run(c):
                  ((4, 40, 200) if c.tier == "quick" else (12, 60, 2000)))
         c.assume("amounts beyond TLC's 32-bit integers are reached only through the scaling lemma "
                  "Allocate(ps, m*D + r) = m*nums + Allocate(ps, r), checked by TLC for m <= 3 and instantiated on the real "
-                 "code with m in {2^53, 2^64, 10^30-1}; arbitrary huge amounts/denominators are outside this check")
+                 "code with m in {2^53, 2^64, 10^30-1} and with the m that put m*D + r just below 10^18, 2^62+1, 2^63-25 and "
+                 "2^64-1 (inside the 64-bit word, where amount*numerator already leaves it); script cases are scaled the same "
+                 "way through ThmScriptScale (postings affine in m, TLC-checked for m = 1..3); percent-like portions "
+                 "x/100 for x in {1,7,33,50,67,99}; arbitrary huge amounts/denominators are outside this check")
         c.assume(nc.ASSUME_STORE)
         nc.report(ctx, "allot", asumm, ("alloc/",))
         nc.report(ctx, "cases", psumm, ("machine-vs-spec/",))
@@ -58,6 +62,9 @@ def run(c):
         badp["exp"]["posts"][0]["n"] -= 1
         badp["exp"]["posts"][1]["n"] += 1
         nc.negative_control(ctx, "cases", [badp], "c24b", "machine-vs-spec/postings", args=["--no-interp"])
+        goodp = copy.deepcopy(pk[0][1])
+        goodp["inject"] = "scaled-part"
+        nc.negative_control(ctx, "cases", [goodp], "c24c", "machine-vs-spec/scaled-", args=["--no-interp"])
         c.set("negative_control", "one unit moved between two prescribed parts (direct call and script): flagged")
     finally:
         ctx.close()
